@@ -611,4 +611,5 @@ func generate() {
 	addDirected(g.Fork())
 	liftDirected(g.Fork())
 	wideCases(g.Fork())
+	directCases(g.Fork()) // precomp / split / rsh_x tied directly (direct.go)
 }
